@@ -114,5 +114,6 @@ Example no_division_by_zero_example :
   0 < A2 (block_of e_s2 (blk_of e_s2 0)) /\ A2 (block_of e_s2 (blk_of e_s2 0)) == 3.
 Proof.
   destruct (no_division_by_zero e_s2 e_s2_reachable) as [_ [H _]].
-  split; [apply H; vm_compute; lia | vm_compute; reflexivity].
+  assert (L : (blk_of e_s2 0 < length (blocks e_s2))%nat) by (vm_compute; lia).
+  split; [exact (proj1 (H (blk_of e_s2 0) L)) | vm_compute; reflexivity].
 Qed.
